@@ -268,14 +268,17 @@ def run_shard(shard, ctx):
                               'sfreq': sfreq, 'tmin': first / sfreq, 'via': 'fif', 'fname': fname}, ctx, root)
     elif part == 'design':
         grid = b['design_grid']
+        k = CONFOUND_TABLES.index(shard['conf']) if shard['conf'] in CONFOUND_TABLES else len(CONFOUND_TABLES)
         for assign in _design_assignments(len(grid), shard['n_cond']):
             if assign[0] not in shard['first']:
                 continue
             for dur in b['design_dur']:
                 for rows in (('onset', 'reversed') if ctx.tier == 'thorough' else ('onset',)):
+                    # the sets of condition names are dealt out over the assignments and the shards
+                    k += 1
                     run_case({'part': 'design', 'grid': grid, 'assign': list(assign),
                               'tr': shard['tr'], 'n_vols': shard['n_vols'], 'conf': shard['conf'],
-                              'dur': dur, 'rows': rows}, ctx)
+                              'dur': dur, 'rows': rows, 'names': k % len(COND_NAME_SETS)}, ctx)
     elif part == 'spm':
         for nscans in combi.compositions(shard['total'], shard['runs']):
             for ncols in itertools.product((1, 2), repeat=shard['runs']):
@@ -1046,6 +1049,43 @@ def _mne_case(case, ctx, root):
 
 # ------------------------------------------------------------------------ design matrix
 COND_NAMES = ['zeta', 'alpha', 'mid']       # first appearance order != sorted order
+# names of conditions 1, 2, 3.  Which condition appears first in the table is enumerated by the
+# onset assignments (every surjection), so every order of first appearance relative to the
+# alphabet occurs for each set; prefixes, digits, upper / lower case
+COND_NAME_SETS = [COND_NAMES, ['face', 'Face', 'face2'], ['9', '10', '1b'], ['tool', 'house', 'face']]
+
+
+class _Sibling:
+    """image / table next to the bold file: one voxel, one parcel"""
+
+    def get_data(self):
+        return np.ones((1, 1, 1))
+
+    def get_key(self):
+        return self
+
+    _frame = None
+
+    def get_frame(self):
+        if _Sibling._frame is None:
+            import pandas
+            _Sibling._frame = pandas.DataFrame({'index': [1], 'name': ['parcel']})
+        return _Sibling._frame.copy()
+
+
+class _BoldStub:
+    """stands in for the BidsMriFile of a run whose events table is `events`"""
+    sub, ses, run, task = '01', None, '1', 'main'
+
+    def __init__(self, events):
+        self._events = events
+
+    def get_events(self):
+        return self._events
+
+    def get_mri_sibling(self, desc, suffix):
+        return _Sibling()
+
 
 
 def _confound_table(kind, n_vols, g):
@@ -1085,7 +1125,8 @@ def _design_case(case, ctx):
     import pandas
     from rsatoolbox.io.fmriprep import make_design_matrix
     grid, assign, tr, n_vols = case['grid'], case['assign'], case['tr'], case['n_vols']
-    rows = [(on, COND_NAMES[a - 1]) for on, a in zip(grid, assign) if a]
+    cond_names = COND_NAME_SETS[case.get('names', 0)]
+    rows = [(on, cond_names[a - 1]) for on, a in zip(grid, assign) if a]
     if case.get('rows') == 'reversed':
         rows = rows[::-1]
     onsets = [r[0] for r in rows]
@@ -1157,6 +1198,8 @@ def _design_case(case, ctx):
                 ctx.fail(sigp + '|condition-column-timing', case,
                          'columns start to respond at volumes %r, first onsets imply %r' % (
                              first, want['first_response']))
+        if n_pred == want['n_cond']:
+            _design_columns_vs_labels(case, ctx, sigp, events, onsets, types, pred, tr, n_vols)
         if conf_cols is not None and dm.shape[1] - n_pred == want['n_conf']:
             clean = [v for v in conf_cols.values() if not np.isnan(v).any()]
             got = dm[:, ~mask]
@@ -1167,6 +1210,56 @@ def _design_case(case, ctx):
                 if not ref.affine_related(src, got[:, c], tol_c):
                     ctx.fail(sigp + '|confound-column-content', case,
                              'confound column %d is not the given confound up to shift and scale' % c)
+
+
+def _design_columns_vs_labels(case, ctx, sigp, events, onsets, types, pred, tr, n_vols):
+    """the design matrix carries no labels; the library names its condition columns through
+    FmriprepRun.get_obs_descriptors / to_descriptors (collapse_by_trial_type=True).  Column c
+    must be the regressor of the condition that labelling gives to position c."""
+    from rsatoolbox.io.fmriprep import FmriprepRun
+    from rsatoolbox.io.hrf import HRF          # the tabulated response (data), sampled every 0.1 s
+    conds = sorted(set(types))
+    run = FmriprepRun(_BoldStub(events))
+    labellings = {}
+    with ctx.guard('FmriprepRun.get_obs_descriptors|collapse_by_trial_type', case):
+        labellings['get_obs_descriptors'] = [str(v) for v in run.get_obs_descriptors(
+            collapse_by_trial_type=True)['trial_type']]
+    if case.get('names', 0) == 0 or ctx.tier == 'thorough':
+        # the second accessor goes through the (stubbed) parcellation files: one name set in quick
+        with ctx.guard('FmriprepRun.to_descriptors|collapse_by_trial_type', case):
+            labellings['to_descriptors'] = [str(v) for v in run.to_descriptors(
+                collapse_by_trial_type=True)['obs_descriptors']['trial_type']]
+    if len(labellings) == 2 and labellings['get_obs_descriptors'] != labellings['to_descriptors']:
+        ctx.fail('FmriprepRun.to_descriptors|collapse_by_trial_type|differs-from-get_obs_descriptors', case,
+                 '%r' % labellings)
+    for accessor, labels in labellings.items():
+        if sorted(labels) != conds:
+            ctx.fail('FmriprepRun.%s|collapse_by_trial_type|not-the-conditions' % accessor, case,
+                     'labels %r for conditions %r' % (labels, conds))
+            continue
+        if accessor != 'get_obs_descriptors' and labels == labellings.get('get_obs_descriptors'):
+            continue            # the same naming: judged once
+        for c, cond in enumerate(labels):
+            own = [o for o, t in zip(onsets, types) if t == cond]
+            want_first = ref.first_volume_after(min(own), tr, n_vols)
+            got_first = ref.departure_index(pred[:, c])
+            if got_first != want_first:
+                ctx.fail('make_design_matrix|columns-vs-%s|column-is-not-the-labelled-condition' % accessor, case,
+                         'column %d is labelled %r (first onset %r -> first response at volume %r) but starts '
+                         'to respond at volume %r; labels %r, events %r' % (
+                             c, cond, min(own), want_first, got_first, labels, list(zip(onsets, types))))
+                continue
+            if accessor != 'get_obs_descriptors':
+                continue
+            reg = ref.block_regressor(tuple(HRF.tolist()), 0.1, own, case['dur'], tr, n_vols)
+            if reg is None:
+                continue
+            r = ref.correlation(pred[:, c], reg)
+            ctx.dev('design 1-corr with own regressor', 1.0 - r)
+            if not r >= 0.9:
+                ctx.fail('make_design_matrix|columns-vs-%s|column-is-not-the-regressor-of-its-condition' % accessor, case,
+                         'column %d (%r): correlation %.3f with the regressor computed from the response '
+                         'table' % (c, cond, r))
 
 
 # ---------------------------------------------------------------------------------- SPM
